@@ -93,6 +93,19 @@ func isTypeExpr(e ast.Expr) bool {
 		return isTypeExpr(x.X)
 	case *ast.ArrayType, *ast.MapType, *ast.InterfaceType, *ast.FuncType, *ast.ChanType, *ast.StructType:
 		return true
+	case *ast.IndexExpr:
+		// an instantiated generic type: Box[int], ext.Box[int]
+		return isTypeExpr(x.X) && isTypeExpr(x.Index)
+	case *ast.IndexListExpr:
+		if !isTypeExpr(x.X) {
+			return false
+		}
+		for _, ix := range x.Indices {
+			if !isTypeExpr(ix) {
+				return false
+			}
+		}
+		return true
 	}
 	return false
 }
